@@ -83,13 +83,7 @@ def contracts():
         return Loop(
             inv=['B as int == B64()',
                  'digit_ctx(%s as int, %s as int, y as int, yn1 as int, yn0 as int)' % (u32, u1)],
-            invariant_except_break=[
-                'B as int == B64()',
-                'digit_ctx(%s as int, %s as int, y as int, yn1 as int, yn0 as int)' % (u32, u1),
-                'digit_est(%s)' % args,
-                'rhat < B64()',
-                '%s < B64() ==> %s * yn0 < B128()' % (q, q),
-                '(%s < B64() && %s * yn0 <= rhat * B64() + %s) ==> %s' % (q, q, u1, done)],
+            invariant_except_break=['digit_inv(%s)' % args],
             ensures=[done],
             dec=q,
             body_entry='lemma_b128(); lemma_digit_step(%s);' % args)
